@@ -287,6 +287,64 @@ def node(w, hist, cfg, res):
                              full_scan=repr(a)[:300], read_only=repr(b)[:300]))
             finally:
                 env.rm_dir(dd)
+    # torn tail: the last transaction cut at several places, or still
+    # carrying its checkpoint flag - the states a read-only open meets while a
+    # writer is in the middle of a (multi-write) vote.  Start/stop iteration
+    # included (iter_level=1).
+    from mc import fsparse
+    data = final[0]
+    try:
+        ptx = fsparse.parse(data, strict=False)
+    except fsparse.FormatError:
+        ptx = []
+    if ptx:
+        lt = ptx[-1]
+        hl = 23 + len(lt.user) + len(lt.desc) + len(lt.ext)
+        torn = []
+        for k in sorted({1, 10, 23, hl, hl + 5, lt.tlen - 1, lt.tlen + 3}):
+            if 0 < k < lt.tlen + 8:
+                torn.append(('cut+%s' % (
+                    'header' if k <= hl else 'records' if k < lt.tlen
+                    else 'length'), data[:lt.pos + k]))
+        torn.append(('checkpoint-flag',
+                     data[:lt.pos + 16] + b'c' + data[lt.pos + 17:]))
+        for label, tdata in torn:
+            dref, ref = open_image(tdata, None)
+            if isinstance(ref, Exc):
+                bad('ro.state', 'torn:%s:reference-open:%s' % (
+                    label, ref.name), dict(got=repr(ref)))
+                env.rm_dir(dref)
+                continue
+            ref_obs = battery.observe(ref, oids, tids, 'F', iter_level=1)
+            ref.close()
+            env.rm_dir(dref)
+            for idx in (None, final[1]):
+                n += 1
+                dd, s = open_image(tdata, idx, None, read_only=True)
+                try:
+                    tag = 'torn:%s:%s' % (label, 'index' if idx else 'noindex')
+                    if isinstance(s, Exc):
+                        bad('ro.open', '%s:%s' % (tag, s.name),
+                            dict(got=repr(s)))
+                        continue
+                    obs = battery.observe(s, oids, tids, 'F', iter_level=1)
+                    s.close()
+                    res.clause('C09.ro.torn')
+                    if obs != ref_obs:
+                        q, a, b = first_diff(ref_obs, obs)
+                        bad('ro.state', '%s:%s:%s' % (
+                            tag, q[0], b.name if isinstance(b, Exc)
+                            else 'differs'),
+                            dict(query=q, full_scan=repr(a)[:300],
+                                 read_only=repr(b)[:300]))
+                    want = {'Data.fs': tdata}
+                    if idx is not None:
+                        want['Data.fs.index'] = idx
+                    if listing(dd) != want:
+                        bad('ro.files', '%s:modified' % tag,
+                            dict(files=sorted(listing(dd))))
+                finally:
+                    env.rm_dir(dd)
     return n, len(all_versions) >= 2, viol
 
 
